@@ -98,7 +98,8 @@ def gen_plan(rng):
 
     if pop == 'client':
         plan['k'] = rng.between(2, 12)
-        plan['ops'] = [rng.choice(['stat', 'stat', 'read', 'realpath'])
+        plan['ops'] = [rng.choice(['stat', 'stat', 'read', 'realpath',
+                                   'statvfs'])
                        for _ in range(plan['k'])]
         plan['reorder'] = rng.chance(85)
         plan['bad'] = rng.weighted([(None, 50), ('unknown_id', 12),
@@ -155,7 +156,9 @@ def valid_plan(plan):
             return False
 
         if plan['pop'] == 'client':
-            return len(plan['ops']) == plan['k'] >= 1
+            return len(plan['ops']) == plan['k'] >= 1 and \
+                all(o in ('stat', 'read', 'realpath', 'statvfs')
+                    for o in plan['ops'])
 
         if plan['pop'] == 'attrs' and plan['version'] == 3 and \
                 any(plan['fields'].get(f, 0) > 0xffffffff
@@ -182,7 +185,8 @@ def run_client(world, plan):
     for i in range(k):
         fs.files[b'/file%d' % i] = bytearray(b'content-of-%d|' % i * (i + 1))
 
-    policy = {'reorder': plan['reorder']}
+    policy = {'reorder': plan['reorder'],
+              'extensions': [(b'statvfs@openssh.com', b'2')]}
 
     if plan['bad']:
         policy['bad_reply'] = (plan['bad'], plan['bad_at'] + 1)
@@ -211,6 +215,9 @@ def run_client(world, plan):
             if op == 'stat':
                 a = await sftp.stat('file%d' % i)
                 return ('size', a.size)
+            elif op == 'statvfs':
+                v = await sftp.statvfs('file%d' % i)
+                return ('vfs', v.files)
             elif op == 'read':
                 async with sftp.open('file%d' % i, 'rb') as f:
                     return ('data', await f.read())
@@ -280,7 +287,8 @@ def run_client(world, plan):
 
         ok = (kind == 'size' and val == len(data)) or \
             (kind == 'data' and val == data) or \
-            (kind == 'path' and val == '/file%d' % i)
+            (kind == 'path' and val == '/file%d' % i) or \
+            (kind == 'vfs' and val == len('/file%d' % i) * 1000 + 7)
 
         if not ok:
             world.violation(
